@@ -312,9 +312,9 @@ func (r *runner) confirmReplay(v *violation, file string) (bool, string) {
 }
 
 func writeReplay(v *violation) string {
-	os.MkdirAll(filepath.Join(verifDir, "replays"), 0755)
+	os.MkdirAll(replayDir(), 0755)
 	h := sha1.Sum([]byte(v.Prop + "|" + v.Key))
-	file := filepath.Join(verifDir, "replays", fmt.Sprintf("%s-%x.json", v.Prop, h[:6]))
+	file := filepath.Join(replayDir(), fmt.Sprintf("%s-%x.json", v.Prop, h[:6]))
 	doc := map[string]interface{}{
 		"property": v.Prop, "key": v.Key, "case": v.Case, "expected": v.Exp, "observed": v.Obs,
 		"how_to_replay": "cd /verif && ./check replay " + file,
@@ -573,8 +573,8 @@ func writeEvidence(def *propDef, tier string, seed int, agg *shardResult, exhaus
 		"coverage": cov, "assumptions": def.Assumptions, "wall_s": wall, "violations": nViol,
 	}
 	b, _ := json.MarshalIndent(ev, "", " ")
-	os.MkdirAll(filepath.Join(verifDir, "evidence"), 0755)
-	os.WriteFile(filepath.Join(verifDir, "evidence", def.ID+".json"), append(b, '\n'), 0644)
+	os.MkdirAll(evidenceDir(), 0755)
+	os.WriteFile(filepath.Join(evidenceDir(), def.ID+".json"), append(b, '\n'), 0644)
 }
 
 func cmdReplay(file string) int {
@@ -614,4 +614,20 @@ func cmdReplay(file string) int {
 	}
 	fmt.Printf("replay of %s: no violation on the current tree (%s)\n", file, why)
 	return 0
+}
+
+// Runs against a scratch copy (VERIF_REPO set: mutants, seeded changes) must never
+// overwrite the evidence of the real tree.
+func evidenceDir() string {
+	if os.Getenv("VERIF_REPO") != "" {
+		return filepath.Join(buildDir, "mut-evidence")
+	}
+	return filepath.Join(verifDir, "evidence")
+}
+
+func replayDir() string {
+	if os.Getenv("VERIF_REPO") != "" {
+		return filepath.Join(buildDir, "mut-replays")
+	}
+	return filepath.Join(verifDir, "replays")
 }
